@@ -44,7 +44,7 @@ from .values import (
 
 BUILTINS = {
     "len", "range", "enumerate", "zip", "sorted", "max", "min", "sum", "abs", "int", "float", "list", "tuple",
-    "isinstance", "print", "str", "bool", "map", "round", "dict", "reversed",
+    "isinstance", "print", "str", "bool", "map", "round", "dict", "reversed", "super", "all", "any",
 }
 
 # uninterpreted real functions with a few axioms, instantiated on demand
@@ -166,6 +166,18 @@ def b_zip(ex, st, args, kwargs, node):
         return Seq(0, lambda i: ())
     n = _min_len([s.length for s in seqs])
     return Seq(n, lambda i: tuple(s.get(i) for s in seqs), tag=("zip", seqs))
+
+
+def zip_star(ex, st, sq, node):
+    """zip(*L) for a symbolic-length list L of k-tuples: the k column sequences (transposition)."""
+    e0 = sq.get(z3.IntVal(0))
+    if not isinstance(e0, tuple):
+        raise Unsupported("zip(*x) over non-tuple elements")
+    k = len(e0)
+    used(ex, "zip(*L): transposition of a list of tuples into its columns (non-empty L is a safety obligation)")
+    ex.safety(st, "zip-star-empty", to_z3(sq.length) > 0, node)
+    cols = [Seq(sq.length, (lambda i, c=c: sq.get(i)[c]), tag=("column", sq, c)) for c in range(k)]
+    return Seq(k, lambda i: cols[i])
 
 
 def b_list(ex, st, args, kwargs, node):
@@ -367,7 +379,7 @@ def b_sorted(ex, st, args, kwargs, node):
     j = z3.Int(uid("j"))
     i2 = z3.Int(uid("i"))
     st.pc.append(z3.ForAll([j], z3.Implies(z3.And(j >= 0, j < nz), z3.And(perm(j) >= 0, perm(j) < nz, inv(perm(j)) == j)), patterns=[perm(j)]))
-    st.pc.append(z3.ForAll([j], z3.Implies(z3.And(j >= 0, j < nz), z3.And(inv(j) >= 0, inv(j) < nz, perm(inv(j)) == j)), patterns=[inv(j)]))
+    st.pc.append(_forall_pats([j], z3.Implies(z3.And(j >= 0, j < nz), z3.And(inv(j) >= 0, inv(j) < nz, perm(inv(j)) == j)), [[inv(j)], [_first_scalar(s.get(j))]]))
 
     def out_get(p):
         return s.get(perm(to_z3(p)))
@@ -392,6 +404,44 @@ def b_map(ex, st, args, kwargs, node):
     f, v = args
     s = ex.iter_seq(v, st, node)
     return Seq(s.length, lambda i: ex.call(f, [s.get(i)], {}, st, None, node))
+
+
+def m_brentq(ex, st, args, kwargs, node):
+    """scipy.optimize.brentq(f, a, b, xtol, rtol, maxiter) -- assumed contract A-BRENT:
+    requires f(a)*f(b) < 0 (else ValueError); returns r in [a,b] with a sign change of f within
+    delta = 4*(xtol + rtol*|r|) of r; f is called finitely often and the LAST call is at a point within delta of r
+    (not necessarily at r: brentq may return the other end of its final bracket)."""
+    f, a, b = args[:3]
+    xtol = kwargs.get("xtol", Fraction(2, 10**12))
+    rtol = kwargs.get("rtol", Fraction(1, 10**11))
+    used(ex, "scipy.optimize.brentq (A-BRENT): root r in [a,b], sign change of f within 4*(xtol+rtol*|r|) of r, last evaluation within that distance of r; ValueError unless f(a)*f(b)<0")
+    fa, fb = ex.pure_call(f, [a], st, node), ex.pure_call(f, [b], st, node)
+    za, zb = to_real(a), to_real(b)
+    ex.safety(st, "brentq-bracket", z3.Or(z3.And(to_real(fa) < 0, to_real(fb) > 0), z3.And(to_real(fa) > 0, to_real(fb) < 0)), node)
+    r = z3.Real(uid("brent_root"))
+    p, q, last = z3.Real(uid("brent_p")), z3.Real(uid("brent_q")), z3.Real(uid("brent_last"))
+    absr = z3.If(r >= 0, r, -r)
+    delta = 4 * (to_real(xtol) + to_real(rtol) * absr)
+    st.pc.append(z3.And(za <= r, r <= zb))
+    for t in (p, q, last):
+        st.pc.append(z3.And(za <= t, t <= zb, t - r <= delta, r - t <= delta))
+    fp, fq = ex.pure_call(f, [p], st, node), ex.pure_call(f, [q], st, node)
+    st.pc.append(z3.And(to_real(fp) <= 0, to_real(fq) >= 0))
+    # the state left behind is the state after the last evaluation
+    ex.call(f, [last], {}, st, None, node)
+    st.env["_brent_last"] = last
+    return r
+
+
+def b_all(ex, st, args, kwargs, node, is_all=True):
+    s = ex.iter_seq(args[0], st, node)
+    if not isinstance(s.length, int):
+        raise Unsupported("all/any over symbolic length")
+    ts = [to_bool(s.get(k)) for k in range(s.length)]
+    if all(isinstance(t, bool) for t in ts):
+        return all(ts) if is_all else any(ts)
+    zs = [z3.BoolVal(t) if isinstance(t, bool) else t for t in ts]
+    return z3.And(*zs) if is_all else z3.Or(*zs)
 
 
 def b_dict(ex, st, args, kwargs, node):
@@ -515,18 +565,18 @@ def list_binop(ex, st, op, a, b, node):
         if a.is_conc() and b.is_conc():
             return PyList([ex.binop(op, x, y, st, node) for x, y in zip(a.v, b.v)], np=True)
         sa, sb = a.as_seq(), b.as_seq()
-        return PyList(Seq(sa.length, lambda i: ex.binop(op, sa.get(i), sb.get(i), _quiet(st), node), np=True), np=True)
+        return PyList(Seq(sa.length, _lazy(ex, lambda i: ex.binop(op, sa.get(i), sb.get(i), st, node)), np=True), np=True)
     if la:
         if a.is_conc():
             return PyList([ex.binop(op, x, b, st, node) for x in a.v], np=True)
         sa = a.as_seq()
         if isinstance(op, (ast.Div, ast.FloorDiv, ast.Mod)):
             ex.binop(op, 1, b, st, node)  # division safety once, on the scalar divisor
-        return PyList(Seq(sa.length, lambda i: ex.binop(op, sa.get(i), b, _quiet(st), node), np=True), np=True)
+        return PyList(Seq(sa.length, _lazy(ex, lambda i: ex.binop(op, sa.get(i), b, st, node)), np=True), np=True)
     if b.is_conc():
         return PyList([ex.binop(op, a, y, st, node) for y in b.v], np=True)
     sb = b.as_seq()
-    return PyList(Seq(sb.length, lambda i: ex.binop(op, a, sb.get(i), _quiet(st), node), np=True), np=True)
+    return PyList(Seq(sb.length, _lazy(ex, lambda i: ex.binop(op, a, sb.get(i), st, node)), np=True), np=True)
 
 
 class _QuietState:
@@ -543,6 +593,19 @@ class _QuietState:
 
 def _quiet(st):
     return st
+
+
+def _lazy(ex, f):
+    """Element getter evaluated lazily: obligations inside are suppressed (they are generated once, eagerly)."""
+
+    def g(i):
+        ex.quiet += 1
+        try:
+            return f(i)
+        finally:
+            ex.quiet -= 1
+
+    return g
 
 
 def list_concat(a: PyList, b: PyList):
@@ -656,9 +719,9 @@ def add_intmap_axioms(ex, st, m: IntMap):
     k = z3.Int(uid("k"))
     nz = to_z3(m.n)
     kp = m.key_at(p)
-    st.pc.append(z3.ForAll([p], z3.Implies(z3.And(p >= 0, p < nz), z3.And(m.dom(kp), m.pos_of(kp) == p)), patterns=[kp]))
+    st.pc.append(_forall_pats([p], z3.Implies(z3.And(p >= 0, p < nz), z3.And(m.dom(kp), m.pos_of(kp) == p)), [[kp]]))
     dk = m.dom(k)
-    st.pc.append(z3.ForAll([k], z3.Implies(dk, z3.And(m.pos_of(k) >= 0, m.pos_of(k) < nz, m.key_at(m.pos_of(k)) == k)), patterns=[m.pos_of(k)]))
+    st.pc.append(_forall_pats([k], z3.Implies(dk, z3.And(m.pos_of(k) >= 0, m.pos_of(k) < nz, m.key_at(m.pos_of(k)) == k)), [[m.pos_of(k)], [dk]]))
 
 
 def container_attr(ex, st, o, attr, node):
@@ -901,15 +964,27 @@ def comprehension(ex, st, mod, node):
         if not g.ifs:
             env0 = st.env
 
-            def get(i, env0=env0):
+            def get(i, env0=env0, quiet=True):
                 saved_env = st.env
                 st.env = _overlay(env0)
+                if quiet:
+                    ex.quiet += 1
+                pc0 = len(st.pc)
                 try:
                     ex.assign(g.target, it.get(i), st, mod)
                     return ex.eval(node.elt, st, mod)
                 finally:
                     st.env = saved_env
+                    if quiet:
+                        ex.quiet -= 1
+                        del st.pc[pc0:]
 
+            # safety obligations of the element expression: once, for an arbitrary index
+            ii = z3.Int(uid("ci"))
+            pc0 = len(st.pc)
+            st.pc.append(z3.And(ii >= 0, ii < to_z3(n)))
+            get(ii, quiet=False)
+            del st.pc[pc0:]
             return PyList(Seq(n, get, tag=("map", it)))
         # filter comprehension: fresh list + (sound and complete) membership axioms
         used(ex, "filter comprehension: order-preserving sub-list (src: strictly increasing position map)")
@@ -919,14 +994,26 @@ def comprehension(ex, st, mod, node):
         dst = z3.Function(uid("fdst"), z3.IntSort(), z3.IntSort())  # input position (kept) -> output position
         env0 = st.env
 
-        def with_elem(i, f):
+        def with_elem(i, f, quiet=True):
             saved_env = st.env
             st.env = _overlay(env0)
+            if quiet:
+                ex.quiet += 1
+            pc0 = len(st.pc)
             try:
                 ex.assign(g.target, it.get(i), st, mod)
                 return f()
             finally:
                 st.env = saved_env
+                if quiet:
+                    ex.quiet -= 1
+                    del st.pc[pc0:]
+
+        ii = z3.Int(uid("ci"))
+        pc00 = len(st.pc)
+        st.pc.append(z3.And(ii >= 0, ii < to_z3(n)))
+        with_elem(ii, lambda: [ex.eval(cond, st, mod) for cond in g.ifs] + [ex.eval(node.elt, st, mod)], quiet=False)
+        del st.pc[pc00:]
 
         def cond_at(i):
             cs = []
@@ -941,7 +1028,8 @@ def comprehension(ex, st, mod, node):
         st.pc.append(z3.ForAll([j], z3.Implies(z3.And(j >= 0, j < m), z3.And(src(j) >= 0, src(j) < nz, cond_at(src(j)), dst(src(j)) == j)), patterns=[src(j)]))
         st.pc.append(z3.ForAll([i2, j], z3.Implies(z3.And(i2 >= 0, i2 < j, j < m), src(i2) < src(j)), patterns=[z3.MultiPattern(src(i2), src(j))]))
         ci = cond_at(i2)
-        st.pc.append(z3.ForAll([i2], z3.Implies(z3.And(i2 >= 0, i2 < nz, ci), z3.And(dst(i2) >= 0, dst(i2) < m, src(dst(i2)) == i2)), patterns=[dst(i2)]))
+        body3 = z3.Implies(z3.And(i2 >= 0, i2 < nz, ci), z3.And(dst(i2) >= 0, dst(i2) < m, src(dst(i2)) == i2))
+        st.pc.append(_forall_pats([i2], body3, [[dst(i2)], [_first_scalar(it.get(i2))]]))
 
         def get(p):
             return with_elem(src(to_z3(p)), lambda: ex.eval(node.elt, st, mod))
@@ -949,6 +1037,57 @@ def comprehension(ex, st, mod, node):
         return PyList(Seq(m, get, tag=("filter", it, src, dst)))
     finally:
         restore()
+
+
+def _first_scalar(v):
+    while isinstance(v, tuple) and v:
+        v = v[-1]
+    return v if is_z3(v) else None
+
+
+_BAD_IN_PATTERN = {z3.Z3_OP_ITE, z3.Z3_OP_AND, z3.Z3_OP_OR, z3.Z3_OP_NOT, z3.Z3_OP_IMPLIES, z3.Z3_OP_EQ, z3.Z3_OP_LE, z3.Z3_OP_LT,
+                   z3.Z3_OP_GE, z3.Z3_OP_GT, z3.Z3_OP_DISTINCT, z3.Z3_OP_TRUE, z3.Z3_OP_FALSE, z3.Z3_OP_IFF if hasattr(z3, "Z3_OP_IFF") else z3.Z3_OP_EQ}
+
+
+def legal_pattern(t, vs):
+    """A usable trigger: an uninterpreted application, no connectives/ite inside, mentions every bound variable."""
+    if t is None or not is_z3(t) or not z3.is_app(t) or t.decl().kind() != z3.Z3_OP_UNINTERPRETED or t.num_args() == 0:
+        return False
+    seen_vars = set()
+    stack = [t]
+    while stack:
+        x = stack.pop()
+        if z3.is_app(x):
+            if x.decl().kind() in _BAD_IN_PATTERN:
+                return False
+            if x.num_args() == 0 and x.decl().kind() == z3.Z3_OP_UNINTERPRETED:
+                seen_vars.add(x.get_id())
+            stack.extend(x.children())
+        else:
+            return False
+    return all(v.get_id() in seen_vars for v in vs)
+
+
+def _forall_pats(vs, body, pattern_sets):
+    """ForAll with several alternative triggers; illegal triggers are skipped."""
+    pats = []
+    for ps in pattern_sets:
+        if any(p is None for p in ps):
+            continue
+        if len(ps) == 1:
+            if legal_pattern(ps[0], vs):
+                pats.append(ps[0])
+        else:
+            allv = set()
+            ok = all(p is not None and is_z3(p) and legal_pattern(p, []) for p in ps)
+            if ok:
+                pats.append(z3.MultiPattern(*ps))
+    if pats:
+        try:
+            return z3.ForAll(vs, body, patterns=pats)
+        except z3.Z3Exception:
+            pass
+    return z3.ForAll(vs, body)
 
 
 class _overlay(dict):
@@ -978,4 +1117,7 @@ _TABLE = {
     "numpy.append": n_append, "numpy.array": n_array, "numpy.hstack": n_hstack, "numpy.log": m_log,
     "numpy.arange": n_arange, "numpy.zeros": n_zeros, "numpy.sqrt": m_sqrt, "numpy.exp": m_exp,
     "warnings.warn": b_print,
+    "scipy.optimize.brentq": m_brentq,
+    "all": b_all, "any": lambda ex, st, args, kwargs, node: b_all(ex, st, args, kwargs, node, is_all=False),
+    "time.time": lambda ex, st, args, kwargs, node: z3.Real(uid("time")),
 }
